@@ -16,6 +16,15 @@
    of the differential run decides the property step by step on the screens observed before
    and after each call (C11_sequence_predicate_sound).
 
+   The whole observation predicate (core clauses and the further clauses: reading order as a
+   subsequence test, stored width = measured width, non-overlap) is sound for the model when
+   the width oracles give no negative width (C11_observation_holds_sound,
+   C11_sequence_holds_sound; the hypothesis is decided per case, a case outside it counts as
+   a mismatch, and it cannot be dropped: C11_widths_hypothesis_needed), so that a run without
+   mismatch has no violation (C11_no_mismatch_no_violation); what the further clauses say in
+   words is C11_more_predicate_meaning, and the fact behind them, for any screen contents
+   found, is C11_changed_cells_reading_order.
+
    Measuring: the capability-dependent choice between the segmenter's widths and
    Vaxis.characterWidth is the pair (remeasure, measure), universally quantified everywhere
    (the differential run uses all eight settings unicodeCore x explicitWidth x noZWJ).  The
@@ -27,7 +36,8 @@
    glyphs (a wide cluster covers more than its cell) C11_text_no_overhang covers the text
    helpers on windows made by Vaxis.Window/New; for Window literals that are larger than
    their parent it is false, see C11_overhang_literal_refuted. *)
-From Vx Require Import base.Prelude base.ListX model.Window proofs.WindowProofs.
+From Vx Require Import base.Prelude base.ListX model.Window proofs.WindowProofs proofs.WindowMoreProofs.
+Require Import Sorted.
 
 (* ---------------------------------------------------------------- SetCell / SetStyle *)
 
@@ -332,9 +342,8 @@ Print Assumptions C11_overhang_literal_refuted.
    (the property, stated on the observation alone).  Whatever agrees with the model satisfies
    the core predicate: no panic, New clamps, every changed cell in the clip, SetCell/SetStyle
    change exactly the cell at origin+offset iff it is in the clip, no glyph of a text helper
-   outside the clip on constructed windows.  ([case_more_holds]: reading order as a
-   subsequence test and non-overlap of the observed cells, is evaluated on every case but has
-   no such theorem; the layout theorems above are its counterpart on the model.) *)
+   outside the clip on constructed windows.  ([case_more_holds]: see the section "the
+   further clauses" below.) *)
 Theorem C11_observation_predicate_sound : forall c : case,
   0 <= c_cols c -> 0 <= c_rows c -> case_agrees c = true -> case_core_holds c = true.
 Proof. exact agrees_core_holds. Qed.
@@ -385,6 +394,130 @@ Theorem C11_sequence_predicate_sound : forall c : scase,
   0 <= q_cols c -> 0 <= q_rows c -> scase_agrees c = true -> scase_core_holds c = true.
 Proof. exact scase_agrees_core_holds. Qed.
 Print Assumptions C11_sequence_predicate_sound.
+
+(* ---------------------------------------------------------------- the further clauses *)
+
+(* Reading order, measured width and non-overlap, on the model, for ANY screen found.  For
+   every window chain, well-formed screen, text helper call, text and oracles whose widths
+   (under the measuring in force) are not negative: take the cells the call changed, in
+   row-major order (any strictly row-major list [d] of cells that are different afterwards).
+   Then their graphemes occur in this order among the clusters of the text (followed by the
+   ellipsis for PrintTruncate): later text never appears before earlier text, and a cell
+   never holds a piece of a cluster; when re-measuring is in force each such cell carries the
+   measured width of its grapheme (or is the ellipsis); and the glyph of one changed cell ends
+   at or before the next changed cell of its row. *)
+Theorem C11_changed_cells_reading_order :
+  forall (measure : text -> Z) (remeasure : bool) (trailing : text -> bool)
+         (w : window) (s : screen) (o : op) s' ret (d : list (Z * Z * cell)),
+  WF s -> is_text_op o = true -> op_widths_ok measure remeasure o = true ->
+  run_op_with measure remeasure trailing w s o = Some (s', ret) ->
+  StronglySorted dlt d ->
+  (forall x y c, In (x, y, c) d -> sget s' x y = Some c /\ sget s x y <> Some c) ->
+  subseq (map dcg d) (op_expected o) = true /\
+  (remeasure = true ->
+   forallb (fun e => zlist_eqb (cg (snd e)) ellipsis || (cw (snd e) =? measure (cg (snd e)))) d = true) /\
+  no_overlap d = true.
+Proof. exact text_more_changed. Qed.
+Print Assumptions C11_changed_cells_reading_order.
+
+(* the two lists the differential run uses are such row-major lists *)
+Theorem C11_observed_lists_row_major : forall bg s cols rows prev post,
+  StronglySorted dlt (screen_diff bg s) /\ StronglySorted dlt (changed_cells bg cols rows prev post).
+Proof. intros; split; [apply screen_diff_sorted|apply changed_cells_sorted]. Qed.
+Print Assumptions C11_observed_lists_row_major.
+
+(* [subseq] is exactly "is a subsequence of" *)
+Theorem C11_subseq_spec : forall a b : list text, subseq a b = true <-> Sub a b.
+Proof. intros a b; split; [apply subseq_sound|apply subseq_complete]. Qed.
+Print Assumptions C11_subseq_spec.
+
+(* Soundness of the whole predicate of stream "draw": a case on which the implementation
+   agrees with the model satisfies the core clauses AND the further clauses.  Hypotheses
+   (both decided by [case_inputs_ok], which the run evaluates on every case): the screen
+   size is no negative number, no oracle width is negative. *)
+Theorem C11_observation_more_sound : forall c : case,
+  0 <= c_cols c -> 0 <= c_rows c -> case_widths_ok c = true -> case_agrees c = true -> case_more_holds c = true.
+Proof. exact agrees_more_holds. Qed.
+Print Assumptions C11_observation_more_sound.
+
+Theorem C11_observation_holds_sound : forall c : case,
+  0 <= c_cols c -> 0 <= c_rows c -> case_widths_ok c = true -> case_agrees c = true -> case_holds c = true.
+Proof. exact agrees_holds. Qed.
+Print Assumptions C11_observation_holds_sound.
+
+(* ... and of stream "seq": every step, decided on the cells that changed between the screen
+   observed before and the screen observed after it *)
+Theorem C11_sequence_more_sound : forall c : scase,
+  0 <= q_cols c -> 0 <= q_rows c -> scase_widths_ok c = true -> scase_agrees c = true -> scase_more_holds c = true.
+Proof. exact scase_agrees_more_holds. Qed.
+Print Assumptions C11_sequence_more_sound.
+
+Theorem C11_sequence_holds_sound : forall c : scase,
+  0 <= q_cols c -> 0 <= q_rows c -> scase_widths_ok c = true -> scase_agrees c = true -> scase_holds c = true.
+Proof. exact scase_agrees_holds. Qed.
+Print Assumptions C11_sequence_holds_sound.
+
+(* What the run computes.  A case whose size or oracle widths are outside the hypotheses is
+   listed as a mismatch, so for any list of cases: no mismatch => no violation. *)
+Theorem C11_no_mismatch_no_violation :
+  (forall cases, c11_draw_mismatches cases = [] -> c11_draw_violations cases = []) /\
+  (forall cases, c11_seq_mismatches cases = [] -> c11_seq_violations cases = []).
+Proof. split; [exact draw_no_mismatch_no_violation|exact seq_no_mismatch_no_violation]. Qed.
+Print Assumptions C11_no_mismatch_no_violation.
+
+(* The hypothesis on the widths cannot be dropped: with a cluster of width -1 (no segmenter
+   or terminal reports one) Println steps back and overwrites its first cluster; the model's
+   own output then fails the reading-order clause. *)
+Theorem C11_widths_hypothesis_needed :
+  exists c : case, 0 <= c_cols c /\ 0 <= c_rows c /\ case_agrees c = true /\
+                   case_widths_ok c = false /\ case_more_holds c = false.
+Proof.
+  exists (mkCase 3 1 (mkCell [46] 1 99) (None, []) false
+            [([97], (1, false)); ([98], (-1, false)); ([99], (1, false))]
+            (OPrintln 0 [([([97], 1); ([98], -1); ([99], 1)], 2)])
+            (mkObs 0 [mkFrame 0 0 3 1] (0, 0) [(0, 0, mkCell [99] 1 2); (1, 0, mkCell [98] (-1) 2)] (0, 0))).
+  vm_compute. repeat split; discriminate.
+Qed.
+Print Assumptions C11_widths_hypothesis_needed.
+
+(* What the further clauses say, on the observation alone.  If [case_more_holds] accepts the
+   observation of a text helper, then
+   - reading order: the graphemes of the changed cells, read row by row and left to right,
+     occur in this order among the clusters of the text (then the ellipsis of PrintTruncate);
+   - never split: every changed cell holds one whole character of the text (a grapheme
+     cluster, or one blank of an expanded tab: C11_characters_whole) or the ellipsis;
+   - when the terminal's measurement is in force the cell carries the measured width;
+   - on constructed windows any two changed cells e1 before e2 of one row satisfy
+     column e1 + width e1 <= column e2: left to right, each glyph clear of the next
+     (the column advances by at least the cluster's width). *)
+Theorem C11_more_predicate_meaning : forall c : case,
+  case_more_holds c = true -> is_text_op (c_op c) = true ->
+  let d := o_diff (c_obs c) in
+  Sub (map dcg d) (op_expected (c_op c)) /\
+  (forall e, In e d -> cg (snd e) = ellipsis \/ exists ch, In ch (op_chars (c_op c)) /\ cg (snd e) = gr ch) /\
+  (c_remeasure c = true ->
+   forall e, In e d -> cg (snd e) = ellipsis \/ cw (snd e) = tab_measure (c_tab c) (cg (snd e))) /\
+  (built_by_constructors (c_win c) = true -> StronglySorted after_glyph d).
+Proof. exact more_holds_meaning. Qed.
+Print Assumptions C11_more_predicate_meaning.
+
+(* The exact advance and the new-row rules are not visible in an observation that was
+   clipped; they are proved of the layout (C11_print_layout, C11_print_line_break,
+   C11_println_layout, C11_print_truncate_layout, C11_wrap_layout) and reach an agreeing
+   observation through this: the cells that differ from the background afterwards are
+   exactly the last cluster that layout (a walk in reading order whose glyphs fit) put at
+   each point of the clip. *)
+Theorem C11_agreeing_observation_is_layout_trace : forall c : case,
+  0 <= c_cols c -> 0 <= c_rows c -> case_agrees c = true -> is_text_op (c_op c) = true ->
+  let s := bg_screen (c_bg c) (c_cols c) (c_rows c) in
+  let w := build_window s (c_win c) in
+  let ps := op_places (tab_measure (c_tab c)) (c_remeasure c) (tab_trailing (c_tab c)) w (c_op c) in
+  (exists st en, path_ok st ps en) /\
+  (forall p, In p ps -> fits_in (fw (wframe w)) p) /\
+  forall x y cl, In (x, y, cl) (o_diff (c_obs c)) <->
+    visible w s x y = true /\ last_at ps (x - fst (origin w)) (y - snd (origin w)) = Some cl /\ cl <> c_bg c.
+Proof. exact agrees_trace. Qed.
+Print Assumptions C11_agreeing_observation_is_layout_trace.
 
 (* ---------------------------------------------------------------- non-vacuity *)
 
@@ -488,3 +621,34 @@ Example C11_example_tab_run :
   case_agrees (mk false bad (0, 3)) = false /\ case_holds (mk false bad (0, 3)) = false /\
   case_holds (mk true bad (0, 3)) = false.
 Proof. vm_compute. repeat split; reflexivity. Qed.
+
+(* the hypotheses of the soundness theorems for the whole predicate hold on the cases above
+   (and the predicate that decides them rejects a negative width) *)
+Example C11_example_inputs_ok :
+  let bg := mkCell [46] 1 99 in
+  let sp := mkCell [32] 1 3 in
+  let blanks := [(0, 0, sp); (1, 0, sp); (2, 0, sp); (0, 1, sp); (1, 1, sp); (2, 1, sp); (0, 2, sp); (1, 2, sp)] in
+  let c := mkCase 6 4 bg (None, [(true, (0, 0, 3, -1))]) true [([32], (1, false)); ([12290], (2, false))]
+                (OWrap [([([9], 0); ([12290], 2)], 3)])
+                (mkObs 0 [mkFrame 0 0 3 4; mkFrame 0 0 6 4] (0, 0) (blanks ++ [(0, 3, mkCell [12290] 2 3)]) (2, 3)) in
+  case_inputs_ok c = true /\ case_agrees c = true /\ case_holds c = true /\
+  c11_draw_mismatches [c] = [] /\
+  op_widths_ok (fun _ => 0) false (OPrintln 0 [([([98], -1)], 2)]) = false.
+Proof. vm_compute. repeat split; reflexivity. Qed.
+
+(* a row-major list of changed cells as in C11_changed_cells_reading_order: Print of
+   "ab" + wide + "d" through a 3-column window at column 1 of a 5x2 screen *)
+Example C11_example_reading_order :
+  let s := bg_screen (mkCell [46] 1 99) 5 2 in
+  let w := win_new (root_window s) 1 0 3 2 in
+  let o := OPrint [([([97], 1); ([98], 1); ([20013], 2); ([100], 1)], 7)] in
+  let d := [(1, 0, mkCell [97] 1 7); (2, 0, mkCell [98] 1 7); (1, 1, mkCell [20013] 2 7); (3, 1, mkCell [100] 1 7)] in
+  op_widths_ok (fun _ => 0) false o = true /\ StronglySorted dlt d /\
+  exists s' ret, run_op_with (fun _ => 0) false (fun _ => false) w s o = Some (s', ret) /\
+    forall x y c, In (x, y, c) d -> sget s' x y = Some c /\ sget s x y <> Some c.
+Proof.
+  cbn zeta. split; [reflexivity|]. split.
+  - repeat constructor; unfold dlt; cbn [fst snd]; lia.
+  - eexists; eexists; split; [vm_compute; reflexivity|].
+    intros x y c [H|[H|[H|[H|[]]]]]; inversion H; subst x y c; (split; [vm_compute; reflexivity|vm_compute; discriminate]).
+Qed.
